@@ -4546,7 +4546,8 @@ class DecAffine(Affine):
 
                 values.append(output)
 
-            if ns > 1 and len(self.event_adapt) > 1:
+            sw = any(arg.sw for arg in args)
+            if ns > 1 and (len(self.event_adapt) > 1 or sw):
                 return pd.Series(values, index=self.dro_model.series_scen.index)
             else:
                 return values[0]
@@ -4847,6 +4848,25 @@ class DecRoAffine(RoAffine):
 
         return string
 
+    def __getitem__(self, item):
+
+        expr = super().__getitem__(item)
+
+        return DecRoAffine(expr, self.event_adapt, self.ctype)
+
+    def reshape(self, shape):
+
+        expr = super().reshape(shape)
+
+        return DecRoAffine(expr, self.event_adapt, self.ctype)
+
+    @property
+    def T(self):
+
+        expr = super().T
+
+        return DecRoAffine(expr, self.event_adapt, self.ctype)
+
     def sum(self, axis=None):
 
         expr = super().sum(axis)
@@ -4969,15 +4989,16 @@ class DecRoAffine(RoAffine):
         raffine_values = self.raffine()
         affine_values = self.affine(*args)
 
-        if isinstance(raffine_values, pd.Series) or sw:
+        if (isinstance(raffine_values, pd.Series) or
+                isinstance(affine_values, pd.Series) or sw):
             output = []
             for i in rvecs.index:
-                if isinstance(raffine_values, pd.Series):
-                    raffine_value = raffine_values.loc[i]
-                    affine_value = affine_values.loc[i]
-                else:
-                    raffine_value = raffine_values
-                    affine_value = affine_values
+                raffine_value = (raffine_values.loc[i]
+                                 if isinstance(raffine_values, pd.Series)
+                                 else raffine_values)
+                affine_value = (affine_values.loc[i]
+                                if isinstance(affine_values, pd.Series)
+                                else affine_values)
                 nrand = raffine_value.shape[1]
 
                 item = (raffine_value@rvecs.loc[i].values[:nrand]).reshape(self.shape)
